@@ -149,7 +149,7 @@ def run_scenario(case, observer=None):
     def cb(ps, prev_time, curr_time):
         ps_ = ps
         v = state["view"]
-        k = int(curr_time.get_hours() / dt)
+        k = int(round(curr_time.get_hours() / dt))
         state["k"] = k
         for (name, rep) in faults.get(str(k), []):
             l = ps_.get_comp(name)
@@ -186,9 +186,10 @@ def run_scenario(case, observer=None):
             observer(ps, v, rec)
         info.append(rec)
     ps.controller.run_control_loop = loop
-    times = [dt * k for k in range(1, n_inc + 1)]
+    unit = case.get("unit", 3)
+    times = [dt * k * 3600 / c17.FACT[unit] for k in range(1, n_inc + 1)]       # the same instants, written in the reporting unit
     with c17._Exact():
-        sim.run_sequence(TimeStamp(), times, TimeUnit.HOUR, cb, False)
+        sim.run_sequence(TimeStamp(), times, c17.U(unit), cb, case.get("save_flag", False))
     return v, ops, impl, info
 
 
